@@ -652,7 +652,7 @@ def template_source(rng, ver=None):
     c2 = const_src(rng, 2)
     fs = frozenset_test_src(rng, 1)
     p = params[0] if params else "None"
-    kind = rng.choice(["def", "async", "gen", "asyncgen", "lambda", "comp", "class", "closure", "module", "deaddef", "annot", "nestedclass", "longline"])
+    kind = rng.choice(["def", "async", "gen", "asyncgen", "lambda", "comp", "class", "closure", "module", "deaddef", "annot", "nestedclass", "longline", "longloop"])
     fut = "from __future__ import annotations\n" if rng.chance(0.2) else ""
     if kind == "def":
         src = "def f(%s):\n    %s\n    x = %s\n    return (x in %s, %s)\n" % (sig, doc or "pass", c1, fs, c2)
@@ -681,6 +681,14 @@ def template_source(rng, ver=None):
         # enclosing method's cell) and at the same time a CELL of it (its own method uses super())
         src = ("class A(B):\n    %s\n    def f(self, %s):\n        class Inner(A):\n            y = __class__\n            z = %s\n"
                "            def g(self):\n                return super().g(), __class__\n        return Inner, super().f()\n") % (doc or "pass", sig or "q=0", c1)
+    elif kind == "longloop":
+        # one code object with a RELATIVE jump that needs an EXTENDED_ARG (loop/try/with spanning a long body), an
+        # early `if` inside it (absolute jump to a target after the relative jump) and nothing after it
+        n = rng.choice([90, 150, 300])
+        head = rng.choice(["for y in a:", "try:", "with a:"])
+        body = "\n".join("        v%d = y + %d" % (i % 7, i) for i in range(n))
+        tail = "\n    finally:\n        pass" if head == "try:" else ""
+        src = "def f(a, y=0):\n    %s\n        if y:\n            v0 = %s\n%s%s\n" % (head, c1, body, tail)
     elif kind == "longline":
         # more than 255 bytes of bytecode on one line, then a big forward or backward line step
         gap = rng.choice([128, 129, 200, 256, 300])
